@@ -313,6 +313,13 @@ static void run_zone(Ctx& c, vt::Rng& r, bool thorough, const std::vector<int64_
     civil_second cmax = sconv(c, kMax), cmin = sconv(c, kMin);
     for (int d : ds) { climit.push_back(cmax + d); climit.push_back(cmin - d); climit.push_back(cmax - d); climit.push_back(cmin + d); }
   }
+  // year and leap-day boundaries in a spread of years of every kind (negative, century, 400-multiples and their
+  // neighbours): far from any transition, chosen by the calendar cycle alone
+  for (int64_t y : {-1199, -800, -799, -401, -400, -399, -398, -101, -100, -99, -4, -1, 0, 1, 4, 100, 399, 400, 401, 1600, 1900, 2000, 2100, 2400}) {
+    climit.push_back(civil_second(y, 1, 1, 0, 0, 0) - 1); climit.push_back(civil_second(y, 1, 1, 0, 0, 0));
+    climit.push_back(civil_second(y, 3, 1, 0, 0, 0) - 1); climit.push_back(civil_second(y, 3, 1, 0, 0, 0));
+    climit.push_back(civil_second(y, 2, 28, 12, 0, 0));
+  }
   for (int i = 0; i < 12; ++i) {
     int64_t y = (i & 1) ? kMax - (int64_t)r.below(3) : kMin + (int64_t)r.below(3);
     climit.push_back(civil_second(y, (int)r.range(1, 12), (int)r.range(1, 28), (int)r.range(0, 23), (int)r.range(0, 59), (int)r.range(0, 59)));
